@@ -292,9 +292,8 @@ func Run(ctx *Ctx, sc *Scn) (evs []trace.Ev, note string) {
 			return evs, note
 		}
 		evs = append(evs, chk)
-		// (also after text in which the library and the terminal may disagree on a cluster's width)
-		refill(op.K == "set0" || op.K == "setw" || op.K == "fill0" || op.K == "fillw" ||
-			sc.Kind == "textwidth" || sc.Kind == "fixedwidth")
+		// (also after the hand-written texts whose clusters' width depends on the terminal)
+		refill(op.K == "set0" || op.K == "setw" || op.K == "fill0" || op.K == "fillw" || sc.Kind == "fixedwidth")
 	}
 	return evs, note
 }
